@@ -358,9 +358,14 @@ def build_request(req):
     if req.get("cred") is not None:
         # the optional Authentication of the request header: a Username and Password credential naming SOMEBODY ELSE
         # than the certificate does (the server's identity comes from the certificate and the directory alone)
-        cv = cobjects.UsernamePasswordCredential(username=req["cred"]["u"], password=req["cred"].get("p"))
-        auth = contents.Authentication(credentials=[cobjects.Credential(
-            credential_type=enums.CredentialType.USERNAME_AND_PASSWORD, credential_value=cv)])
+        if req["cred"].get("dev"):
+            cv = cobjects.DeviceCredential(device_serial_number=req["cred"].get("serial"), password=req["cred"].get("p"),
+                                           device_identifier=req["cred"].get("u"), network_identifier=req["cred"].get("net"))
+            ct = enums.CredentialType.DEVICE
+        else:
+            cv = cobjects.UsernamePasswordCredential(username=req["cred"]["u"], password=req["cred"].get("p"))
+            ct = enums.CredentialType.USERNAME_AND_PASSWORD
+        auth = contents.Authentication(credentials=[cobjects.Credential(credential_type=ct, credential_value=cv)])
     hdr = messages.RequestHeader(
         authentication=auth,
         batch_order_option=None if req.get("border") is None else contents.BatchOrderOption(req["border"]),
